@@ -150,6 +150,9 @@ impl ISocket for RepSocket {
       }
     }
 
+    #[cfg(any(rzmq_verif, kani))]
+    crate::verif_facade::sched_point("RepSocket::recv:after-check");
+
     let rcvtimeo_opt = self.core_state_read().options.rcvtimeo;
     let (peer_info, mut payload_frames) = self.recv_complete_request(rcvtimeo_opt).await?;
     *self.state.lock() = RepState::ReceivedRequest(peer_info);
